@@ -195,6 +195,13 @@ func c09Node(e *Env) {
 		switch e.Weighted("c09b", []int{3, 2, 2, 3}) {
 		case 0: // a datapoint arrives on the http ingestion endpoint: dated at receipt
 			s := series[e.Draw(len(series))]
+			offGrid := e.Chance(1, 3)
+			if offGrid {
+				// 400us before a grid point: some later flush is then more than the expiry interval after
+				// this datapoint by less than a millisecond
+				time.Sleep(50*time.Millisecond - 400*time.Microsecond)
+				e.Probe("datapoint-just-before-a-grid-point")
+			}
 			now := time.Now()
 			val, member := add(s, now)
 			msg := &pb.RawMessageV2{}
@@ -215,6 +222,9 @@ func c09Node(e *Env) {
 			}
 			e.Probe("datapoint-over-http")
 			e.Event("http +%v %s val=%v member=%q", now.Sub(t0), s.key, val, member)
+			if offGrid {
+				time.Sleep(400 * time.Microsecond) // back onto the grid
+			}
 			time.Sleep(time.Duration(1+e.Draw(3)) * 50 * time.Millisecond)
 		case 1: // a map that was held up on its way arrives: its datapoint is older than now
 			s := series[e.Draw(len(series))]
